@@ -212,7 +212,11 @@ def rule_r4(p, res):
     d = Defs(f.node)
     g = cfgmod.build(f.node)
     zd = d.single("zero_denom")
-    need(zd is not None and norm(zd) in ("(scale_factor == 0).ravel()", "scale_factor == 0"), "C18.R4: zero test of the scale factor not recognised")
+    need(zd is not None, "C18.R4: zero test of the scale factor not found")
+    if any(isinstance(x, ast.Call) and (dotted(x.func) or "").split(".")[-1] in ("isclose", "allclose") for x in ast.walk(zd)):
+        r.violation(f, zd, "the zero test of the scale statistic uses a tolerance (`%s`): a small but non-zero scale is refused (or silently left unscaled) although dividing by it is well defined" % norm(zd)[:60])
+        return
+    need(norm(zd) in ("(scale_factor == 0).ravel()", "scale_factor == 0"), "C18.R4: zero test of the scale factor not recognised")
     anyz = [nm for nm, ds in d.defs.items() if len(ds) == 1 and ds[0][0] == "assign" and norm(ds[0][1]) == "np.any(zero_denom)"]
     need(len(anyz) == 1, "C18.R4: np.any(zero_denom) flag not found")
     az = anyz[0]
@@ -352,5 +356,6 @@ WITNESSES = [
     Witness("C18.W6", "menpo/feature/features.py", "normalize_std", "mode=mode, ", "", rule="C18.R4", construct="normalize_std"),
     Witness("C18.W7", "menpo/feature/base.py", "ndfeature", "feature = wrapped(image.pixels, *args, **kwargs)", "feature = wrapped(image.pixels, *args)", rule="C18.R1", construct="ndfeature"),
     Witness("C18.W8", "menpo/feature/base.py", "rebuild_feature_image", "mask = image.mask.resize(f_pixels.shape[1:])", "mask = image.mask.copy()", rule="C18.R2", construct="rebuild_feature_image"),
+    Witness("C18.W10", "menpo/feature/features.py", "normalize", "zero_denom = (scale_factor == 0).ravel()", "zero_denom = np.isclose(scale_factor, 0).ravel()", rule="C18.R4", construct="normalize", note="seeded change R2-C18-B"),
     Witness("C18.T1", "menpo/feature/features.py", "no_op", "return pixels.copy()", "out = pixels.copy()\n    return out", kind="T"),
 ]
